@@ -77,7 +77,7 @@ class C04(StrCheck):
     def gen(self, rng, tier):
         for h in directed_histories(rng):
             yield 'str 4 ' + ';'.join(h)
-        n = 400 if tier == 'quick' else 8000
+        n = 400 if tier == 'quick' else 40000
         for _ in range(n):
             yield 'str 4 ' + ';'.join(random_history(rng, rng.choice([8, 12, 18])))
 
